@@ -110,7 +110,10 @@ func VerifC19Health() {
 var c19HTTP struct {
 	doErr  bool
 	status int
+	reqCtx context.Context // the context the probe request was bound to
 }
+
+type c19CtxKey struct{}
 
 type c19Body struct{}
 
@@ -118,6 +121,7 @@ func (c19Body) Read(p []byte) (int, error) { return 0, errors.New("EOF") }
 func (c19Body) Close() error               { return nil }
 
 func c19StubNewRequestWithContext(ctx context.Context, method, url string, body interface{ Read([]byte) (int, error) }) (*http.Request, error) {
+	c19HTTP.reqCtx = ctx
 	return &http.Request{Header: http.Header{}}, nil
 }
 func c19StubDo(c *http.Client, r *http.Request) (*http.Response, error) {
@@ -134,8 +138,14 @@ func c19StubCopy(dst interface{ Write([]byte) (int, error) }, src interface{ Rea
 func VerifC19Probe() {
 	c19HTTP.doErr = zzverif.Bool("transportError")
 	c19HTTP.status = zzverif.IntRange("status", 0, 999)
-	m := &Monitor{checkType: "http", url: "http://x/health", header: http.Header{}}
-	err := m.doHTTPCheck(context.Background())
+	monCtx, cancelMon := context.WithCancel(context.Background())
+	defer cancelMon()
+	m := &Monitor{checkType: "http", url: "http://x/health", header: http.Header{}, ctx: monCtx, cancel: cancelMon}
+	// the per-probe context (it carries the probe's deadline in checkWorker)
+	probeCtx := context.WithValue(monCtx, c19CtxKey{}, "this-probe")
+	c19HTTP.reqCtx = nil
+	err := m.doHTTPCheck(probeCtx)
+	zzverif.Assert(c19HTTP.reqCtx != nil && c19HTTP.reqCtx.Value(c19CtxKey{}) == "this-probe", "C19.probe.http-request-bound-to-the-probe's-deadline-context")
 	ok := !c19HTTP.doErr && c19HTTP.status >= 200 && c19HTTP.status <= 299
 	zzverif.Assert((err == nil) == ok, "C19.probe.http-failed-iff-error-or-non-2xx")
 	if err == nil {
